@@ -64,6 +64,8 @@ func main() {
 		os.Exit(r.Finish())
 	case "warm":
 		engine.Warm()
+	case "c14cold":
+		engine.C14Cold(os.Args[2])
 	case "c17worker":
 		i, _ := strconv.Atoi(os.Args[2])
 		n, _ := strconv.Atoi(os.Args[3])
